@@ -262,10 +262,26 @@ func (p *exprParser) unary() Expr {
 	if t.k == "id" && (t.s == "forall" || t.s == "exists") {
 		p.next()
 		v := p.next()
+		// type: [*]name[.name]
+		tyS := ""
 		ty := p.next()
+		for ty.k == "op" && ty.s == "*" {
+			tyS += "*"
+			ty = p.next()
+		}
 		if v.k != "id" || ty.k != "id" {
 			panic("quantifier: expected `forall v type :: body`")
 		}
+		tyS += ty.s
+		for p.peek().k == "op" && p.peek().s == "." {
+			p.next()
+			n := p.next()
+			if n.k != "id" {
+				panic("quantifier: bad qualified type")
+			}
+			tyS += "." + n.s
+		}
+		ty.s = tyS
 		p.expect("::")
 		body := p.expr(0)
 		return &EQuant{t.s == "forall", v.s, ty.s, body}
